@@ -138,21 +138,29 @@ fn run_tree<X: Tree>(ctx: &mut Ctx, prop: &str, gen: &Gen, vm: &str) {
             if !X::QUAD {
                 return;
             }
-            // (a) rank_prefetch(c, i) == rank(c, i) for every symbol of the alphabet and EVERY position
+            // (a) rank_prefetch(c, i) == rank(c, i) for every symbol of the alphabet and EVERY position,
+            // on the tree as built and on a deserialized copy of it (a state reached through serde)
             let syms = symbols(&r, 12);
             let all: Vec<usize> = if n <= 70_000 { (0..=n + 2).collect() } else { positions(n, 0) };
             let mut pos = all;
             pos.extend([UMAX - 1, UMAX]);
             pos.extend(mc::sweep::wrap_args(n));
-            for &c in &syms {
-                for &i in &pos {
-                    let base = trap(|| t.rank_(c, i));
-                    if let Ok(b) = base {
-                        ctx.obs("rank_prefetch", &cl, c.to_u128(), i as u64, 0, Exp::Is(b), || t.rank_prefetch_(c, i).unwrap());
-                    }
-                    if n > 0 && i <= n && b_is_some(&base) {
-                        let b = base.unwrap().unwrap();
-                        ctx.obs("rank_prefetch_unchecked", &cl, c.to_u128(), i as u64, 0, Exp::Is(b), || unsafe { t.rank_prefetch_unchecked_(c, i).unwrap() });
+            let back = ctx.total("deserialize(serialize(..))", &cl, 0, 0, 0, || bincode::deserialize::<X>(&bincode::serialize(&t).unwrap()).unwrap());
+            for (which, tt) in [Some(&t), back.as_ref()].into_iter().enumerate() {
+                let Some(tt) = tt else { continue };
+                let cls = if which == 0 { cl.clone() } else { format!("{cl} deserialized").trim().to_string() };
+                // the deserialized copy: every symbol, a thinner set of positions on long inputs
+                let step = if which == 1 && n > 3000 { 7 } else { 1 };
+                for &c in &syms {
+                    for &i in pos.iter().step_by(step).chain(pos.iter().rev().take(12)) {
+                        let base = trap(|| tt.rank_(c, i));
+                        if let Ok(b) = base {
+                            ctx.obs("rank_prefetch", &cls, c.to_u128(), i as u64, 0, Exp::Is(b), || tt.rank_prefetch_(c, i).unwrap());
+                        }
+                        if n > 0 && i <= n && b_is_some(&base) {
+                            let b = base.unwrap().unwrap();
+                            ctx.obs("rank_prefetch_unchecked", &cls, c.to_u128(), i as u64, 0, Exp::Is(b), || unsafe { tt.rank_prefetch_unchecked_(c, i).unwrap() });
+                        }
                     }
                 }
             }
@@ -174,6 +182,9 @@ fn run_tree<X: Tree>(ctx: &mut Ctx, prop: &str, gen: &Gen, vm: &str) {
                     ctx.violation("queries after round trip", &cl, "full sweep".into(), "answers identical to the original's".into(), "answers differ (both differ from the reference)".into());
                 }
             }
+            // the original has answered queries by now: its round trip must still compare equal (and the earlier copy, queried too, equals it)
+            let _ = roundtrip(ctx, &t, &format!("{cl} after-queries").trim().to_string());
+            ctx.obs("deserialized (queried) == original (queried)", &format!("{cl} after-queries").trim().to_string(), 0, 0, 0, Exp::Is(true), || back == t);
             ctx.count("round_trips");
         }
         "C19" => {
@@ -244,6 +255,39 @@ fn b_is_some(b: &Result<Option<usize>, String>) -> bool {
     matches!(b, Ok(Some(_)))
 }
 
+/// C10, one pair: the arguments satisfy the documented precondition (by the reference model). The unchecked method
+/// must return what the checked one returns; a checked method that answers None there while the unchecked one
+/// returns a value is a disagreement too.
+fn c10_pair<R: PartialEq + std::fmt::Debug + std::hash::Hash>(
+    ctx: &mut Ctx,
+    name: &'static str,
+    cl: &str,
+    a0: u128,
+    a1: u64,
+    a2: u64,
+    checked: impl FnOnce() -> Option<R>,
+    unchecked: impl FnOnce() -> R,
+) {
+    match trap(checked) {
+        Ok(Some(v)) => {
+            ctx.obs(name, cl, a0, a1, a2, Exp::Is(v), unchecked);
+        }
+        Ok(None) => {
+            ctx.count("checked_gave_no_value_on_valid_arguments");
+            if let Ok(u) = trap(unchecked) {
+                ctx.violation(
+                    name,
+                    &format!("{cl} checked-none").trim().to_string(),
+                    format!("{name}({})", fmt_args(name, a0, a1, a2)),
+                    "the value of the checked method - which answers None although the precondition holds".into(),
+                    format!("{u:?}"),
+                );
+            }
+        }
+        Err(_) => ctx.count("checked_gave_no_value_on_valid_arguments"),
+    }
+}
+
 /// C10 for trees: on arguments that satisfy the documented precondition the unchecked method returns
 /// what the checked one returns.
 fn c10_tree<X: Tree>(ctx: &mut Ctx, t: &X, r: &RefSeq<X::T>, o: &SweepOpts) {
@@ -251,11 +295,7 @@ fn c10_tree<X: Tree>(ctx: &mut Ctx, t: &X, r: &RefSeq<X::T>, o: &SweepOpts) {
     let cl = o.class.as_str();
     for &i in &positions(n, o.dense_limit) {
         if i < n {
-            if let Ok(Some(v)) = trap(|| t.get_(i)) {
-                ctx.obs("get_unchecked", cl, 0, i as u64, 0, Exp::Is(v), || unsafe { t.get_unchecked_(i) });
-            } else {
-                ctx.count("checked_gave_no_value_on_valid_arguments");
-            }
+            c10_pair(ctx, "get_unchecked", cl, 0, i as u64, 0, || t.get_(i), || unsafe { t.get_unchecked_(i) });
         }
     }
     let max = r.max();
@@ -269,24 +309,14 @@ fn c10_tree<X: Tree>(ctx: &mut Ctx, t: &X, r: &RefSeq<X::T>, o: &SweepOpts) {
             if i > n {
                 continue;
             }
-            match trap(|| t.rank_(c, i)) {
-                Ok(Some(v)) => {
-                    ctx.obs("rank_unchecked", cl, cu, i as u64, 0, Exp::Is(v), || unsafe { t.rank_unchecked_(c, i) });
-                    if X::QUAD {
-                        ctx.obs("rank_prefetch_unchecked", cl, cu, i as u64, 0, Exp::Is(v), || unsafe { t.rank_prefetch_unchecked_(c, i).unwrap() });
-                    }
-                }
-                _ => ctx.count("checked_gave_no_value_on_valid_arguments"),
+            c10_pair(ctx, "rank_unchecked", cl, cu, i as u64, 0, || t.rank_(c, i), || unsafe { t.rank_unchecked_(c, i) });
+            if X::QUAD {
+                c10_pair(ctx, "rank_prefetch_unchecked", cl, cu, i as u64, 0, || t.rank_prefetch_(c, i).unwrap(), || unsafe { t.rank_prefetch_unchecked_(c, i).unwrap() });
             }
         }
         for &k in &occ_indices(r.count(c), o.dense_limit) {
             if k < r.count(c) {
-                match trap(|| t.select_(c, k)) {
-                    Ok(Some(v)) => {
-                        ctx.obs("select_unchecked", cl, cu, k as u64, 0, Exp::Is(v), || unsafe { t.select_unchecked_(c, k) });
-                    }
-                    _ => ctx.count("checked_gave_no_value_on_valid_arguments"),
-                }
+                c10_pair(ctx, "select_unchecked", cl, cu, k as u64, 0, || t.select_(c, k), || unsafe { t.select_unchecked_(c, k) });
             }
         }
     }
@@ -394,32 +424,22 @@ fn run_quad<X: QuadRS>(ctx: &mut Ctx, prop: &str, gen: &Gen) {
             let n = q.len();
             for &i in &positions(n, dense) {
                 if i < n {
-                    if let Ok(Some(v)) = trap(|| t.get(i)) {
-                        ctx.obs("get_unchecked", "", 0, i as u64, 0, Exp::Is(v), || unsafe { t.get_unchecked(i) });
-                    }
+                    c10_pair(ctx, "get_unchecked", "", 0, i as u64, 0, || t.get(i), || unsafe { t.get_unchecked(i) });
                 }
             }
             for s in 0..4u8 {
                 for &i in &positions(n, dense) {
                     if i <= n {
-                        if let Ok(Some(v)) = trap(|| t.rank(s, i)) {
-                            ctx.obs("rank_unchecked", "", s as u128, i as u64, 0, Exp::Is(v), || unsafe { t.rank_unchecked(s, i) });
-                        }
+                        c10_pair(ctx, "rank_unchecked", "", s as u128, i as u64, 0, || t.rank(s, i), || unsafe { t.rank_unchecked(s, i) });
                     }
                 }
                 for &k in &occ_indices(r.count(s), dense) {
                     if k < r.count(s) {
-                        if let Ok(Some(v)) = trap(|| t.select(s, k)) {
-                            ctx.obs("select_unchecked", "", s as u128, k as u64, 0, Exp::Is(v), || unsafe { t.select_unchecked(s, k) });
-                        }
+                        c10_pair(ctx, "select_unchecked", "", s as u128, k as u64, 0, || t.select(s, k), || unsafe { t.select_unchecked(s, k) });
                     }
                 }
-                if let Ok(Some(v)) = trap(|| t.occs(s)) {
-                    ctx.obs("occs_unchecked", "", s as u128, 0, 0, Exp::Is(v), || unsafe { t.occs_unchecked(s) });
-                }
-                if let Ok(Some(v)) = trap(|| t.occs_smaller(s)) {
-                    ctx.obs("occs_smaller_unchecked", "", s as u128, 0, 0, Exp::Is(v), || unsafe { t.occs_smaller_unchecked(s) });
-                }
+                c10_pair(ctx, "occs_unchecked", "", s as u128, 0, 0, || t.occs(s), || unsafe { t.occs_unchecked(s) });
+                c10_pair(ctx, "occs_smaller_unchecked", "", s as u128, 0, 0, || t.occs_smaller(s), || unsafe { t.occs_smaller_unchecked(s) });
             }
         }
         "C11" => {
@@ -433,6 +453,9 @@ fn run_quad<X: QuadRS>(ctx: &mut Ctx, prop: &str, gen: &Gen) {
                     ctx.violation("queries after round trip", "", "full sweep".into(), "identical answers".into(), "answers differ".into());
                 }
             }
+            // the original has answered queries by now: its round trip must still compare equal (and the earlier copy, queried too, equals it)
+            let _ = roundtrip(ctx, &t, "after-queries");
+            ctx.obs("deserialized (queried) == original (queried)", "after-queries", 0, 0, 0, Exp::Is(true), || back == t);
             ctx.count("round_trips");
         }
         "C19" => {
@@ -489,9 +512,7 @@ fn run_qvector(ctx: &mut Ctx, prop: &str, gen: &Gen) {
     match prop {
         "C10" => {
             for i in 0..q.len() {
-                if let Ok(Some(v)) = trap(|| t.get(i)) {
-                    ctx.obs("get_unchecked", "", 0, i as u64, 0, Exp::Is(v), || unsafe { t.get_unchecked(i) });
-                }
+                c10_pair(ctx, "get_unchecked", "", 0, i as u64, 0, || t.get(i), || unsafe { t.get_unchecked(i) });
             }
         }
         "C11" => {
@@ -500,6 +521,9 @@ fn run_qvector(ctx: &mut Ctx, prop: &str, gen: &Gen) {
             for i in 0..=q.len() + 1 {
                 ctx.obs("get after round trip", "", 0, i as u64, 0, Exp::Is(q.get(i).copied()), || back.get(i));
             }
+            // the original has answered queries by now: its round trip must still compare equal (and the earlier copy, queried too, equals it)
+            let _ = roundtrip(ctx, &t, "after-queries");
+            ctx.obs("deserialized (queried) == original (queried)", "after-queries", 0, 0, 0, Exp::Is(true), || back == t);
             ctx.count("round_trips");
         }
         _ => {}
@@ -521,31 +545,21 @@ fn run_bin<X: BinRS>(ctx: &mut Ctx, prop: &str, gen: &BitGen) {
         "C10" => {
             for &i in &positions(n, dense) {
                 if i < n {
-                    if let Ok(Some(v)) = trap(|| t.get(i)) {
-                        ctx.obs("get_unchecked", "", 0, i as u64, 0, Exp::Is(v), || unsafe { t.get_unchecked(i) });
-                    }
+                    c10_pair(ctx, "get_unchecked", "", 0, i as u64, 0, || t.get(i), || unsafe { t.get_unchecked(i) });
                 }
                 if i <= n && n > 0 {
-                    if let Ok(Some(v)) = trap(|| t.rank1(i)) {
-                        ctx.obs("rank1_unchecked", "", 0, i as u64, 0, Exp::Is(v), || unsafe { t.rank1_unchecked(i) });
-                    }
-                    if let Ok(Some(v)) = trap(|| t.rank0(i)) {
-                        ctx.obs("rank0_unchecked", "", 0, i as u64, 0, Exp::Is(v), || unsafe { t.rank0_unchecked(i) });
-                    }
+                    c10_pair(ctx, "rank1_unchecked", "", 0, i as u64, 0, || t.rank1(i), || unsafe { t.rank1_unchecked(i) });
+                    c10_pair(ctx, "rank0_unchecked", "", 0, i as u64, 0, || t.rank0(i), || unsafe { t.rank0_unchecked(i) });
                 }
             }
             for &k in &occ_indices(r.ones.len(), dense) {
                 if k < r.ones.len() {
-                    if let Ok(Some(v)) = trap(|| t.select1(k)) {
-                        ctx.obs("select1_unchecked", "", 0, k as u64, 0, Exp::Is(v), || unsafe { t.select1_unchecked(k) });
-                    }
+                    c10_pair(ctx, "select1_unchecked", "", 0, k as u64, 0, || t.select1(k), || unsafe { t.select1_unchecked(k) });
                 }
             }
             for &k in &occ_indices(r.zeros.len(), dense) {
                 if k < r.zeros.len() {
-                    if let Ok(Some(v)) = trap(|| t.select0(k)) {
-                        ctx.obs("select0_unchecked", "", 0, k as u64, 0, Exp::Is(v), || unsafe { t.select0_unchecked(k) });
-                    }
+                    c10_pair(ctx, "select0_unchecked", "", 0, k as u64, 0, || t.select0(k), || unsafe { t.select0_unchecked(k) });
                 }
             }
         }
@@ -560,6 +574,9 @@ fn run_bin<X: BinRS>(ctx: &mut Ctx, prop: &str, gen: &BitGen) {
                     ctx.violation("queries after round trip", "", "full sweep".into(), "identical answers".into(), "answers differ".into());
                 }
             }
+            // the original has answered queries by now: its round trip must still compare equal (and the earlier copy, queried too, equals it)
+            let _ = roundtrip(ctx, &t, "after-queries");
+            ctx.obs("deserialized (queried) == original (queried)", "after-queries", 0, 0, 0, Exp::Is(true), || back == t);
             ctx.count("round_trips");
         }
         "C19" => {
@@ -617,21 +634,15 @@ fn run_darr<const S0: bool>(ctx: &mut Ctx, prop: &str, gen: &BitGen) {
         "C10" => {
             for &i in &positions(n, 300) {
                 if i < n {
-                    if let Ok(Some(v)) = trap(|| t.get(i)) {
-                        ctx.obs("get_unchecked", "", 0, i as u64, 0, Exp::Is(v), || unsafe { t.get_unchecked(i) });
-                    }
+                    c10_pair(ctx, "get_unchecked", "", 0, i as u64, 0, || t.get(i), || unsafe { t.get_unchecked(i) });
                 }
             }
             for k in 0..r.ones.len() {
-                if let Ok(Some(v)) = trap(|| t.select1(k)) {
-                    ctx.obs("select1_unchecked", "", 0, k as u64, 0, Exp::Is(v), || unsafe { t.select1_unchecked(k) });
-                }
+                c10_pair(ctx, "select1_unchecked", "", 0, k as u64, 0, || t.select1(k), || unsafe { t.select1_unchecked(k) });
             }
             if S0 {
                 for k in 0..r.zeros.len() {
-                    if let Ok(Some(v)) = trap(|| t.select0(k)) {
-                        ctx.obs("select0_unchecked", "", 0, k as u64, 0, Exp::Is(v), || unsafe { t.select0_unchecked(k) });
-                    }
+                    c10_pair(ctx, "select0_unchecked", "", 0, k as u64, 0, || t.select0(k), || unsafe { t.select0_unchecked(k) });
                 }
             }
         }
@@ -646,6 +657,9 @@ fn run_darr<const S0: bool>(ctx: &mut Ctx, prop: &str, gen: &BitGen) {
                     ctx.violation("queries after round trip", "", "full sweep".into(), "identical answers".into(), "answers differ".into());
                 }
             }
+            // the original has answered queries by now: its round trip must still compare equal (and the earlier copy, queried too, equals it)
+            let _ = roundtrip(ctx, &t, "after-queries");
+            ctx.obs("deserialized (queried) == original (queried)", "after-queries", 0, 0, 0, Exp::Is(true), || back == t);
             ctx.count("round_trips");
         }
         "C19" => {
@@ -684,9 +698,7 @@ fn run_bits(ctx: &mut Ctx, prop: &str, mutable: bool, gen: &BitGen) {
         ($b:expr, $mutable:expr) => {{
             let b = $b;
             for i in 0..n {
-                if let Ok(Some(v)) = trap(|| b.get(i)) {
-                    ctx.obs("get_unchecked", "", 0, i as u64, 0, Exp::Is(v), || unsafe { b.get_unchecked(i) });
-                }
+                c10_pair(ctx, "get_unchecked", "", 0, i as u64, 0, || b.get(i), || unsafe { b.get_unchecked(i) });
             }
             let starts: Vec<usize> = if n <= 140 { (0..=n).collect() } else { positions(n, 0).into_iter().filter(|&s| s <= n).collect() };
             for &s in &starts {
@@ -726,6 +738,9 @@ fn run_bits(ctx: &mut Ctx, prop: &str, mutable: bool, gen: &BitGen) {
                 if d1 != d2 {
                     ctx.violation("queries after round trip", "", "complete observation".into(), "answers identical to the original's".into(), "answers differ".into());
                 }
+                // the original has answered queries by now: its round trip must still compare equal (and the earlier copy, queried too, equals it)
+                let _ = roundtrip(ctx, &b, "after-queries");
+                ctx.obs("deserialized (queried) == original (queried)", "after-queries", 0, 0, 0, Exp::Is(true), || back == b);
                 ctx.count("round_trips");
             }
             "C19" => {
@@ -767,6 +782,9 @@ fn run_bits(ctx: &mut Ctx, prop: &str, mutable: bool, gen: &BitGen) {
                 if d1 != d2 {
                     ctx.violation("queries after round trip", "", "complete observation".into(), "answers identical to the original's".into(), "answers differ".into());
                 }
+                // the original has answered queries by now: its round trip must still compare equal (and the earlier copy, queried too, equals it)
+                let _ = roundtrip(ctx, &b, "after-queries");
+                ctx.obs("deserialized (queried) == original (queried)", "after-queries", 0, 0, 0, Exp::Is(true), || back == b);
                 ctx.count("round_trips");
             }
             "C19" => {
@@ -800,6 +818,19 @@ fn tree_subjects(v: &mut Vec<Subject>, prop: &str, th: bool) {
     let aliases: Vec<&str> = if prop == "C09" { PLAIN_QUAD.iter().chain(HUFF_QUAD.iter()).copied().collect() } else { all };
     let elems: &[&str] = if prop == "C09" { &["u8", "u64"] } else { &["u8", "u16", "u32", "u64", "usize", "u128"] };
     let mut push = |alias: &str, elem: &str, gen: Gen, vm: &str| v.push(Subject::Tree { alias: alias.into(), elem: elem.into(), gen, vmap: vm.into() });
+    if prop == "C09" {
+        // every short sequence, element types up to 128 bits (symbols of 2^64 and more in the queries)
+        for g in tiny_all(3, if th { 5 } else { 4 }) {
+            for &al in &aliases {
+                let huff = al.starts_with('H');
+                for e in ["u8", "u64", "u128"] {
+                    for vm in if huff { ["hpow4", "hmaxy"] } else { ["wide", "maxy"] } {
+                        push(al, e, g.clone(), vm);
+                    }
+                }
+            }
+        }
+    }
     if prop != "C09" {
         for g in tiny_all(3, if th { 6 } else { 5 }) {
             for &al in &aliases {
@@ -833,7 +864,7 @@ fn tree_subjects(v: &mut Vec<Subject>, prop: &str, th: bool) {
         for &al in &aliases {
             let huff = al.starts_with('H');
             for (sigma, pat) in [(64u32, Pat::Periodic), (64, Pat::Runs(128)), (64, Pat::Const(48)), (64, Pat::TwoRuns), (64, Pat::Blocks), (5, Pat::Periodic), (256, Pat::DenseThenSparse), (64, Pat::Rare(2)), (17, Pat::Runs(2048))] {
-                let e = if sigma <= 64 && (n + sigma as usize) % 2 == 0 { "u8" } else { "u64" };
+                let e = if prop == "C09" && (n + sigma as usize) % 5 == 0 { "u128" } else if sigma <= 64 && (n + sigma as usize) % 2 == 0 { "u8" } else { "u64" };
                 let vm = if huff { "hid" } else if e == "u64" { "spread" } else { "id" };
                 // Const(48): sigma 64 keeps the symbol (Const is taken modulo sigma)
                 push(al, e, Gen::Boundary { n, pat, sigma }, vm);
